@@ -3,7 +3,7 @@ import sys, ast
 sys.path.insert(0, '/verif')
 from sa.model import Model
 from sa.engines.norm import _strip_doc
-m = Model()
+m = Model(form='normal')
 mod = m.mod(sys.argv[1])
 for q in sys.argv[2:]:
     fn = mod.functions[q]
